@@ -2,6 +2,8 @@ CONSTANTS
   CacheKeyedByNameOnly = FALSE
   ContentCacheByFile = FALSE
   ResultsAliased = FALSE
+  GetMemberRewinds = FALSE
+  LazyScanDiesOnFault = FALSE
   EmitH = FALSE
 SPECIFICATION TSpec
 INVARIANT CacheCoherent
